@@ -159,6 +159,19 @@ def rule_k3(repo, col):
                "a translated node is reused only if its broken cycles are ancestors and its content avoids all ancestors",
                "the reuse condition of translated nodes must be `cb <= ancset and not ancset & cn` with ancset = frozenset(ancestors + [nodeid])",
                construct="_break_cycles: reuse condition", function="_break_cycles")
+    # on reuse, the cycles broken inside the reused node and its content are charged to the caller's accumulators
+    okacc = False
+    for loop in [n for n in ast.walk(f.node) if isinstance(n, ast.For) and isinstance(n.target, ast.Tuple) and len(n.target.elts) == 3 and "translation[" in norm(n.iter)]:
+        nn, cb, cn = [e.id for e in loop.target.elts]
+        for iff in [x for x in ast.walk(loop) if isinstance(x, ast.If)]:
+            body = [norm(x) for x in iff.body]
+            if any(b.startswith("return") or "return" in b for b in body) or any(isinstance(x, ast.If) for x in iff.body):
+                if "cycles_broken |= %s" % cb in body and "content |= %s" % cn in body:
+                    okacc = True
+    col.decide("K3", m, f.node, okacc, "reusing a translated node charges its broken cycles and its content to the caller (cycles_broken |= cb; content |= cn)",
+               "when _break_cycles reuses a previously translated node it must add that node's broken cycles to cycles_broken and its content to content: otherwise a parent built "
+               "on the reused node is cached as cycle-free and later reused where the cut is not valid (queries in a particular order get a too small formula)",
+               construct="_break_cycles: reuse accumulates cycles_broken/content", function="_break_cycles")
     okb = False
     for n in walk_no_nested(f.node):
         if isinstance(n, ast.If) and norm(n.test) == "nodetype == 'conj'" and len(n.body) == 1 and len(n.orelse) == 1:
@@ -170,6 +183,43 @@ def rule_k3(repo, col):
         dict((k.arg, norm(k.value)) for k in atom[0].keywords) == {"group": "node.group", "name": "node.name", "is_extra": "node.is_extra"}
     col.decide("K3", m, atom[0] if atom else f.node, oka, "atoms are re-added field by field (identifier, probability, group, name, is_extra)",
                "atoms must be re-added with identifier, probability, group=, name=, is_extra= of the source node", **({} if atom else {"construct": "atoms", "function": "_break_cycles"}))
+
+
+def rule_k3b(repo, col):
+    """break_cycles: evidence literals are translated on abs(n) and negated afterwards exactly for n < 0"""
+    f = repo.func("problog.cycles", "break_cycles")
+    m = f.module
+    loops = [n for n in walk_no_nested(f.node) if isinstance(n, ast.For) and "evidence_all()" in norm(n.iter) and isinstance(n.target, ast.Tuple) and len(n.target.elts) == 3]
+    if len(loops) != 1:
+        raise AnalysisError("break_cycles: evidence loop not found")
+    l = loops[0]
+    q, nv, vv = [e.id for e in l.target.elts]
+    calls = [c for c in ast.walk(l) if isinstance(c, ast.Call) and dotted(c.func) == "_break_cycles"]
+    if len(calls) != 1:
+        raise AnalysisError("break_cycles: _break_cycles call in the evidence loop not found")
+    arg = norm(calls[0].args[2])
+    negs = [x for x in l.body if isinstance(x, ast.If) and any(norm(y) == "newnode = target.negate(newnode)" for y in x.body)]
+    neg_guard = norm(negs[0].test) if negs else None
+    if arg == "abs(%s)" % nv:
+        ok = neg_guard in ("%s is not None and %s < 0" % (nv, nv), "%s < 0" % nv)
+        why = "the node is translated on abs(n); the result must then be negated exactly when n < 0 (found guard %s)" % neg_guard
+    elif arg == nv:
+        ok = not negs
+        why = "the node is translated with its sign (which already negates the result), so it must not be negated a second time"
+    else:
+        raise AnalysisError("break_cycles: evidence node argument not understood: %s" % arg)
+    col.decide("K3", m, calls[0], ok, "evidence literals keep their sign through cycle breaking", "break_cycles evidence loop: %s" % why,
+               construct="break_cycles: evidence sign pairing (%s / %s)" % (arg, neg_guard), function="break_cycles")
+    labels = {}
+    for x in ast.walk(l):
+        if isinstance(x, ast.If):
+            t = norm(x.test)
+            for y in x.body:
+                if isinstance(y, ast.Expr) and "add_name(" in norm(y):
+                    labels[t] = norm(y)
+    okl = "LABEL_EVIDENCE_POS" in labels.get("%s > 0" % vv, "") and "LABEL_EVIDENCE_NEG" in labels.get("%s < 0" % vv, "")
+    col.decide("K3", m, l, okl, "observed-true evidence keeps LABEL_EVIDENCE_POS, observed-false LABEL_EVIDENCE_NEG",
+               "break_cycles must re-label evidence with v > 0 as LABEL_EVIDENCE_POS and v < 0 as LABEL_EVIDENCE_NEG", construct="break_cycles: evidence labels", function="break_cycles")
 
 
 def rule_k4_k5(repo, col):
@@ -233,4 +283,5 @@ def run(repo, col):
     col.rule("K5", "ConstraintAD.update_weights weight pairs")
     rule_k1_k2(repo, col)
     rule_k3(repo, col)
+    rule_k3b(repo, col)
     rule_k4_k5(repo, col)
